@@ -10,6 +10,9 @@ HERE = os.path.dirname(os.path.dirname(os.path.abspath(__file__)))
 BEGIN, END = '<!-- SEEDED-BEGIN -->', '<!-- SEEDED-END -->'
 
 OUT_OF_SCOPE = {
+    'C06-6': 'not a violation of any statement: it shifts the serial of date-times inside 28 February 1900 (not at midnight) by '
+             'one; before 1 March 1900 the statements (C13) demand only the date -> serial -> date round trip and strict '
+             'monotonicity, both of which still hold, and C06 speaks of "their serial" without fixing it there',
     'C10-1': 'not a violation of the statement: it only moves a $ marker between two corners that share a row; the '
              'statement fixes coordinates and labels of range corners, not marker attribution on ties',
     'C13-4': 'not a violation of the statement as read here: DATEVALUE of date-time TEXT dropping the time of day is what '
